@@ -312,10 +312,10 @@ def _needle(rng, spec):
     return s
 
 
-def scene(sA, sB):
-    """oracles + L of a pair"""
+def scene(sA, sB, k=None):
+    """oracles + L of a pair (k: tolerance factor of the caller, see oracles.scene_L)"""
     oA = O.oracle(sA); oB = oA if sB is sA else O.oracle(sB)
-    return oA, oB, O.scene_L([oA, oB])
+    return oA, oB, O.scene_L([oA, oB], k=k)
 
 
 def build_pair(sA, sB, rng=None, p_update=0.0):
